@@ -107,6 +107,8 @@ def enum_helpers(seed):
         os.symlink("a.txt", os.path.join(work, "alink"))
         HELPERS = {"doins": I.Doins, "doexe": I.Doexe, "dobin": I.Dobin, "dosbin": I.Dosbin, "dolib.so": I.Dolib_so, "dolib.a": I.Dolib_a, "dodoc": I.Dodoc, "doman": I.Doman, "domo": I.Domo,
                    "dodir": I.Dodir, "keepdir": I.Keepdir, "dosym": I.Dosym, "dohard": I.Dohard, "dohtml": I.Dohtml}
+        # a top-level directory of the build host that no request puts into the image
+        HOSTDIR = next("/" + n for n in sorted(os.listdir("/")) if n[0] != "." and os.path.isdir("/" + n) and not os.path.islink("/" + n) and n not in ("usr", "etc", "var", "opt"))
         for eapi in ("6", "8"):
             pkg = FakePkg("cat/pkg-1", eapi=eapi, slot="2")
             PF = "pkg-1"
@@ -159,6 +161,11 @@ def enum_helpers(seed):
                 ("keepdir", "--diroptions=-m0700", ["/var/empty"], {"var/empty": ("dir", 0o700), "var/empty/.keep_cat_pkg-2": ("file", 0o644, b"")}),
                 ("doins", "--dest=/usr/share/y --insoptions=-m0644 --diroptions=-m0711", ["-r", "tree"], {"usr/share/y/tree": ("dir", 0o711), "usr/share/y/tree/t1": F("tree/t1", 0o644), "usr/share/y/tree/sub": ("dir", 0o711),
                                                                                                        "usr/share/y/tree/sub/t2": F("tree/sub/t2", 0o644)}),
+                # a directory operand ending in a '.' component (like cp -r tree/. dest): the directory's contents go straight into the destination
+                ("doins", "--dest=/usr/share/z --insoptions=-m0644 --diroptions=-m0755", ["-r", "tree/."], {"usr/share/z/t1": F("tree/t1", 0o644), "usr/share/z/sub": ("dir", 0o755), "usr/share/z/sub/t2": F("tree/sub/t2", 0o644)}),
+                ("dodoc", f"--dest=/usr/share/doc/{PF}/dot", ["-r", "./tree/./"], {f"usr/share/doc/{PF}/dot/t1": F("tree/t1", 0o644), f"usr/share/doc/{PF}/dot/sub": ("dir", 0o755), f"usr/share/doc/{PF}/dot/sub/t2": F("tree/sub/t2", 0o644)}),
+                # a link name that is a directory on the build host but not in the image: what counts is the image (the link is created there)
+                ("dosym", "", ["a.txt", HOSTDIR], {HOSTDIR.lstrip("/"): ("sym", "a.txt")}),
             ]
             for round_ in range(14):
                 rnd = random.Random(seed * 100 + round_ + (7 if eapi == "8" else 0))
